@@ -1,3 +1,302 @@
-import WireV.Show
+import WireP.Lemmas.ShowProofsFinal
+import WireV.Sets
+import WireV.Emit
+import WireV.Generated.Tables
+/-! # C19 — `wire show` groups outputs by required inputs; `wire check` succeeds exactly when `wire gen` would
+
+Property theorems only; lemmas in `WireP/Lemmas/ShowProofs{Defs,Inv,Big,Final}.lean` (namespace
+`WireP.Show`).
+
+**Part 1** — model `WireV.gather` (lean/WireV/Show.lean; cmd/wire/main.go:`gather`), the DFS that
+groups every type a provider set can produce under the set of types that must be supplied from
+outside.  Specification vocabulary (`WireP.Show`):
+
+* `gdep pm a b` — the entry of `a` is not an injector argument and `b ∈ depsOf` of it (the entry of an
+  interface key is the concrete entry, so these are the concrete provider's parameters);
+* `GReach pm` — reflexive-transitive closure; `GAcyclic pm := WellFounded (fun b a => gdep pm a b)`;
+* `Leaf pm u` — `u` has no entry, or its entry is an injector argument;
+* `Need pm t u := GReach pm t u ∧ Leaf pm u` — `u` is a leaf requirement of `t`.
+
+The only hypothesis is `GAcyclic pm`, and only for the theorems that need every DFS to finish
+(`gather_terminates`, `gather_visits_keys`, `gather_partition`, `gather_order_free`); the theorems
+about what the groups *mean* hold of every map.  No `Nodup` of the keys of `pm` is needed (`look`
+takes the first entry, as the model does).  `gacyclic_of_acyclic` : every map the planner's front
+half accepts (`ConcClosed`, `WireP.Solve.Acyclic`) is `GAcyclic`.
+
+**Part 2** — the regenerated call-fact tables: `Load` (check / show) and `generateInjectors` +
+`inject` (gen) run the same analysis stages.  **Part 3** — the model-level `check ⇔ gen` statement,
+by construction. -/
 namespace WireP.C19
+open WireV WireP.Show
+
+/-! ## Part 1: `gather` -/
+
+/-- every map accepted by the planner's front half is acyclic in the sense `gather` needs -/
+theorem gacyclic_of_acyclic {pm : PMap} (hcc : WireP.Solve.ConcClosed pm)
+    (h : WireP.Solve.Acyclic pm) : GAcyclic pm :=
+  WireP.Show.gacyclic_of_acyclic hcc h
+
+/-- **Termination**: the fuel `2 + 2·Σ (1 + deps)` that the model gives each DFS is enough — the
+    stack is empty at the end -/
+theorem gather_terminates {pm : PMap} {keys : List Ty} (hac : GAcyclic pm) :
+    (gather pm keys).stk = [] :=
+  WireP.Show.gather_terminates hac
+
+/-- … in fact half of it: a DFS for `k` (on top of any stack `rest`) is done after at most
+    `1 + Σ (1 + deps)` steps, from every state satisfying the invariant -/
+theorem gather_dfs_steps {pm : PMap} (hac : GAcyclic pm) {s : GSt} (hI : Inv pm s) (k : Ty)
+    (rest : List Ty) (hs : s.stk = k :: rest) :
+    ∃ n, n ≤ 1 + (pm.map (fun kv => 1 + (depsOf kv.2.src).length)).sum ∧
+      (gIter pm n s).stk = rest :=
+  WireP.Show.gather_dfs_steps hac hI k rest hs
+
+theorem gather_visits_keys {pm : PMap} {keys : List Ty} (hac : GAcyclic pm) :
+    ∀ k ∈ keys, (look k (gather pm keys).visited).isSome :=
+  WireP.Show.gather_visits_keys hac
+
+/-- at the end the visited types are exactly those reachable from the keys -/
+theorem gather_visited_iff {pm : PMap} {keys : List Ty} (hac : GAcyclic pm) (t : Ty) :
+    (look t (gather pm keys).visited).isSome ↔ ∃ k ∈ keys, GReach pm k t :=
+  WireP.Show.gather_visited_iff hac t
+
+/-- **The inputs of a group are exactly the leaf requirements of each of its outputs** (every map,
+    every key list): a type assigned to group `i` is an output of that group, and the group's
+    input list (duplicate-free) has exactly the members `u` that are reachable from it and have no
+    entry or an injector-argument entry -/
+theorem gather_inputs_spec {pm : PMap} {keys : List Ty} {k : Ty} {i : Nat}
+    (h : look k (gather pm keys).visited = some (some i)) :
+    ∃ g, (gather pm keys).groups[i]? = some g ∧ k ∈ g.outputs ∧ g.inputs.Nodup ∧
+      ∀ u, u ∈ g.inputs ↔ (GReach pm k u ∧ Leaf pm u) :=
+  WireP.Show.gather_inputs_spec h
+
+/-- a type marked as an input (`-1` in Go) is a leaf requirement -/
+theorem gather_input_leaf {pm : PMap} {keys : List Ty} {k : Ty}
+    (h : look k (gather pm keys).visited = some none) : Leaf pm k :=
+  WireP.Show.gather_input_leaf h
+
+/-- a value goes to a group with no inputs -/
+theorem gather_value_no_inputs {pm : PMap} {keys : List Ty} {k : Ty} {i : Nat} {pt : PT} {v : Val}
+    (h : look k (gather pm keys).visited = some (some i)) (hl : look k pm = some pt)
+    (hv : pt.src = .val v) :
+    ∃ g, (gather pm keys).groups[i]? = some g ∧ k ∈ g.outputs ∧ g.inputs = [] :=
+  WireP.Show.gather_value_no_inputs h hl hv
+
+/-- **Partition**: every key with a non-argument entry is assigned to a group, is an output of that
+    group exactly once, is an output of no other group, and that group's inputs are its
+    requirements -/
+theorem gather_partition {pm : PMap} {keys : List Ty} (hac : GAcyclic pm) {k : Ty} {pt : PT}
+    (hk : k ∈ keys) (hl : look k pm = some pt) (hna : ∀ i, pt.src ≠ .arg i) :
+    ∃ i g, look k (gather pm keys).visited = some (some i) ∧
+      (gather pm keys).groups[i]? = some g ∧ k ∈ g.outputs ∧ g.outputs.Nodup ∧
+      (∀ u, u ∈ g.inputs ↔ (GReach pm k u ∧ Leaf pm u)) ∧
+      ∀ j g', (gather pm keys).groups[j]? = some g' → k ∈ g'.outputs → j = i :=
+  WireP.Show.gather_partition hac hk hl hna
+
+/-- conversely, nothing else is listed: every output of every group is assigned to that group, has
+    a non-argument entry, and is reachable from a key -/
+theorem gather_outputs_sound {pm : PMap} {keys : List Ty} {j : Nat} {g : Grp} {t : Ty}
+    (hg : (gather pm keys).groups[j]? = some g) (ht : t ∈ g.outputs) :
+    look t (gather pm keys).visited = some (some j) ∧
+      (∃ pt, look t pm = some pt ∧ ∀ i, pt.src ≠ .arg i) ∧ ∃ k ∈ keys, GReach pm k t :=
+  WireP.Show.gather_outputs_sound hg ht
+
+/-- **Outputs with equal requirement sets are merged**: two different groups never have `sameKeys`
+    inputs, nor the same members -/
+theorem gather_groups_distinct {pm : PMap} {keys : List Ty} {i j : Nat} {gi gj : Grp} (hij : i ≠ j)
+    (hi : (gather pm keys).groups[i]? = some gi) (hj : (gather pm keys).groups[j]? = some gj) :
+    sameKeys gi.inputs gj.inputs = false ∧ ¬ ∀ u, u ∈ gi.inputs ↔ u ∈ gj.inputs :=
+  WireP.Show.gather_groups_distinct hij hi hj
+
+/-- **Order independence**: if two key lists have the same members (e.g. two iteration orders of
+    `set.Outputs()`), the results are the same set of (inputs-as-set, outputs-as-set) pairs, and
+    have the same number of groups -/
+theorem gather_order_free {pm : PMap} {keys keys' : List Ty} (hac : GAcyclic pm)
+    (hk : ∀ k, k ∈ keys ↔ k ∈ keys') :
+    (∀ g ∈ (gather pm keys).groups, ∃ g' ∈ (gather pm keys').groups,
+      (∀ u, u ∈ g.inputs ↔ u ∈ g'.inputs) ∧ (∀ t, t ∈ g.outputs ↔ t ∈ g'.outputs)) ∧
+    (∀ g' ∈ (gather pm keys').groups, ∃ g ∈ (gather pm keys).groups,
+      (∀ u, u ∈ g'.inputs ↔ u ∈ g.inputs) ∧ (∀ t, t ∈ g'.outputs ↔ t ∈ g.outputs)) ∧
+    (gather pm keys).groups.length = (gather pm keys').groups.length :=
+  ⟨WireP.Show.gather_order_free hac hk,
+   WireP.Show.gather_order_free hac (fun k => (hk k).symm),
+   Nat.le_antisymm (WireP.Show.gather_order_free_length hac hk)
+     (WireP.Show.gather_order_free_length hac (fun k => (hk k).symm))⟩
+
+theorem gather_order_free_perm {pm : PMap} {keys keys' : List Ty} (hac : GAcyclic pm)
+    (hp : keys.Perm keys') :
+    (∀ g ∈ (gather pm keys).groups, ∃ g' ∈ (gather pm keys').groups,
+      (∀ u, u ∈ g.inputs ↔ u ∈ g'.inputs) ∧ (∀ t, t ∈ g.outputs ↔ t ∈ g'.outputs)) ∧
+    (gather pm keys).groups.length = (gather pm keys').groups.length :=
+  ⟨(gather_order_free hac (fun _ => hp.mem_iff)).1, (gather_order_free hac (fun _ => hp.mem_iff)).2.2⟩
+
+/-! ### non-vacuity
+
+`0` has no entry (a missing input), `1` is an injector argument, `2` a value, `A(2, 0) → 3`, `4` an
+interface bound to `3` (its entry is `3`'s), `B(4) → 5`, `C(3) → 6`, `D(5, 6) → 7` (a diamond over
+`3`), `8` a field of `7`, `E(1, 8) → 9`. -/
+
+def pA : Prov := { id := 21, args := [2, 0], outs := [3] }
+def exPm : PMap :=
+  [(1, ⟨1, .arg 0⟩), (2, ⟨2, .val { id := 10, out := 2 }⟩),
+   (3, ⟨3, .prov pA⟩), (4, ⟨3, .prov pA⟩),
+   (5, ⟨5, .prov { id := 22, args := [4], outs := [5] }⟩),
+   (6, ⟨6, .prov { id := 23, args := [3], outs := [6] }⟩),
+   (7, ⟨7, .prov { id := 24, args := [5, 6], outs := [7] }⟩),
+   (8, ⟨8, .fld { id := 30, parent := 7, outs := [8] }⟩),
+   (9, ⟨9, .prov { id := 25, args := [1, 8], outs := [9] }⟩)]
+def exKeys : List Ty := [1, 2, 3, 4, 5, 6, 7, 8, 9]
+
+/-- the hypothesis of the theorems holds: every dependency has a smaller number -/
+theorem exAcyclic : GAcyclic exPm := gacyclic_of_rank exPm id (by decide)
+
+/-- three groups: the value needs nothing; `3 … 8` need the missing `0`; `9` needs `1` and `0` -/
+example : (gather exPm exKeys).groups =
+    [⟨[], [2]⟩, ⟨[0], [3, 4, 5, 6, 7, 8]⟩, ⟨[1, 0], [9]⟩] := by decide
+example : (gather exPm exKeys).visited =
+    [(9, some 2), (8, some 1), (7, some 1), (6, some 1), (5, some 1), (4, some 1), (3, some 1),
+     (0, none), (2, some 0), (1, none)] := by decide
+example : (gather exPm exKeys).stk = [] := gather_terminates exAcyclic
+/-- another order of the keys: the same groups up to the order of outputs -/
+example : (gather exPm exKeys.reverse).groups =
+    [⟨[], [2]⟩, ⟨[0], [3, 6, 4, 5, 7, 8]⟩, ⟨[1, 0], [9]⟩] := by decide
+/-- a single key: everything it needs is visited and grouped -/
+example : (gather exPm [9]).groups = [⟨[], [2]⟩, ⟨[0], [3, 6, 4, 5, 7, 8]⟩, ⟨[1, 0], [9]⟩] := by
+  decide
+/-- the hypotheses of `gather_partition` for the binding key `4` -/
+example : ∃ i g, look 4 (gather exPm exKeys).visited = some (some i) ∧
+    (gather exPm exKeys).groups[i]? = some g ∧ 4 ∈ g.outputs ∧ g.outputs.Nodup ∧
+    (∀ u, u ∈ g.inputs ↔ (GReach exPm 4 u ∧ Leaf exPm u)) ∧
+    ∀ j g', (gather exPm exKeys).groups[j]? = some g' → 4 ∈ g'.outputs → j = i :=
+  gather_partition exAcyclic (by decide) (pt := ⟨3, .prov pA⟩) rfl (by simp)
+
+/-- `GAcyclic` is needed for termination: on a provider that needs its own output the DFS never
+    finishes (the Go loop does not terminate; the model runs out of fuel) -/
+example : (gather [(0, ⟨0, .prov { id := 0, args := [0], outs := [0] }⟩)] [0]).stk ≠ [] := by decide
+
+/-! ## Part 2: the regenerated call facts — check and gen run the same analysis stages
+
+`loadCalls` are the functions called (transitively within wire.go's `Load` and its helpers) by the
+entry point of `wire check` / `wire show`; `generateInjectorsCalls` and `injectCalls` those of
+`wire gen`.  The tables are regenerated from the sources on every run; the theorems are closed by
+`decide` and break when a stage is dropped from either side. -/
+
+theorem load_runs_gen_stages :
+    ["findInjectorBuild", "injectorFuncSignature", "processNewSet", "solve", "injectorCallErrors"].all
+      (fun f => Generated.loadCalls.contains f) = true := by decide
+
+theorem gen_runs_stages :
+    ["findInjectorBuild", "injectorFuncSignature", "processNewSet", "inject"].all
+      (Generated.generateInjectorsCalls.contains ·) = true ∧
+    ["funcOutput", "solve", "injectorCallErrors"].all (Generated.injectCalls.contains ·) = true := by
+  decide
+
+theorem set_stages :
+    ["buildProviderMap", "verifyAcyclic"].all (Generated.processNewSetCalls.contains ·) = true := by
+  decide
+
+/-- non-vacuity: the tables are populated, and the check does detect a missing stage -/
+example : Generated.loadCalls.length = 26 ∧ Generated.injectCalls.length = 17 ∧
+    Generated.generateInjectorsCalls.length = 21 ∧ Generated.processNewSetCalls.length = 9 := by
+  decide
+example : ["solve", "noSuchStage"].all (fun f => Generated.loadCalls.contains f) = false := by decide
+/-- `Load` does not emit code: what gen runs in addition is output only -/
+example : Generated.loadCalls.contains "writeAST" = false ∧
+    Generated.injectCalls.contains "writeAST" = true := by decide
+
+/-! ## Part 3: the model-level statement (by construction)
+
+An injector passes iff planning its `wire.Build` set succeeds (`planLast`, i.e. `processNewSet` +
+`solve` + `verifyArgsUsed`) and its signature declares what the planned calls return
+(`sigErrors`, i.e. `injectorCallErrors`).  `gen` passes iff all injectors pass; `check` runs the same
+on all injectors and additionally processes the package's provider-set variables. -/
+
+/-- one injector: the type order, the set definitions ending in its `wire.Build` set, the requested
+    type, and whether its signature declares a cleanup / an error -/
+structure InjSpec where
+  order : List Ty
+  ds : List SetDef
+  out : Ty
+  sc : Bool
+  se : Bool
+
+def injectorOk (order : List Ty) (ds : List SetDef) (out : Ty) (sc se : Bool) : Bool :=
+  match planLast order ds out with
+  | .ok calls => sigErrors sc se calls == []
+  | _ => false
+
+/-- a provider-set variable is fine iff its set is accepted by `processNewSet` -/
+def setOk (order : List Ty) (ds : List SetDef) : Bool :=
+  match (procSets order ds).getLast? with
+  | some (_, .ok _ _) => true
+  | _ => false
+
+def genOk (injs : List InjSpec) : Bool := injs.all (fun j => injectorOk j.order j.ds j.out j.sc j.se)
+
+def checkOk (injs : List InjSpec) (sets : List (List Ty × List SetDef)) : Bool :=
+  genOk injs && sets.all (fun p => setOk p.1 p.2)
+
+theorem injectorOk_iff (order : List Ty) (ds : List SetDef) (out : Ty) (sc se : Bool) :
+    injectorOk order ds out sc se = true ↔
+      ∃ calls, planLast order ds out = .ok calls ∧ sigErrors sc se calls = [] := by
+  unfold injectorOk
+  cases planLast order ds out <;> simp
+
+/-- `wire check` succeeds exactly when `wire gen` would and every provider-set variable is fine -/
+theorem check_iff_gen (injs : List InjSpec) (sets : List (List Ty × List SetDef)) :
+    checkOk injs sets = true ↔ genOk injs = true ∧ ∀ p ∈ sets, setOk p.1 p.2 = true := by
+  simp [checkOk]
+
+theorem check_fails_if_gen_fails (injs : List InjSpec) (sets : List (List Ty × List SetDef))
+    (h : genOk injs = false) : checkOk injs sets = false := by
+  simp [checkOk, h]
+
+/-- on a package without provider-set variables the two verdicts coincide -/
+theorem check_eq_gen_no_sets (injs : List InjSpec) : checkOk injs [] = genOk injs := by
+  simp [checkOk]
+
+/-- an injector that passes has an accepted `wire.Build` set: listing the injectors' own sets among
+    the checked sets changes nothing -/
+theorem injectorOk_setOk (order : List Ty) (ds : List SetDef) (out : Ty) (sc se : Bool)
+    (h : injectorOk order ds out sc se = true) : setOk order ds = true := by
+  obtain ⟨calls, hp, _⟩ := (injectorOk_iff order ds out sc se).mp h
+  unfold planLast at hp
+  unfold setOk
+  simp only at hp
+  split at hp
+  · rename_i heq; rw [heq]
+  · cases hp
+  · cases hp
+
+/-! ### non-vacuity: one set with a value and a provider returning an error -/
+
+def exSet : SetDef :=
+  { id := 1, args := some [0], imports := [],
+    provs := [{ id := 20, args := [0, 1], outs := [2], hasErr := true }],
+    vals := [{ id := 10, out := 1 }], flds := [], bnds := [] }
+def exInj (se : Bool) : InjSpec := { order := [0, 1, 2], ds := [exSet], out := 2, sc := false, se := se }
+
+example : planLast [0, 1, 2] [exSet] 2 =
+    .ok [{ kind := .value, out := 1, srcId := 10 },
+         { kind := .func, out := 2, srcId := 20, args := [0, 1], ins := [0, 1], hasErr := true }] := by
+  rfl
+example : genOk [exInj true] = true ∧ checkOk [exInj true] [([0, 1, 2], [exSet])] = true := by decide
+/-- the injector does not declare the error: both fail -/
+example : genOk [exInj false] = false ∧ checkOk [exInj false] [] = false := by decide
+/-- gen passes, a provider-set variable with two sources for `1` makes check fail -/
+example : genOk [exInj true] = true ∧
+    checkOk [exInj true] [([0, 1, 2], [{ exSet with vals := [⟨10, 1⟩, ⟨11, 1⟩] }])] = false := by
+  decide
+
+/-! ## deviations from the brief
+
+* `gather_inputs_spec`, `gather_groups_distinct`, `gather_input_leaf`, `gather_value_no_inputs`,
+  `gather_outputs_sound` need **no** hypothesis (not even `GAcyclic`): they follow from an invariant
+  of `gStep` that holds whether or not the DFS finishes.
+* `gather_partition` is stated for `k ∈ keys` (as in the brief, "every key"); `gather_outputs_sound`
+  and `gather_visited_iff` extend it to everything reachable from the keys.
+* `gather_order_free` assumes "same members" (`Perm` is the corollary `gather_order_free_perm`) and
+  is stated as mutual inclusion of the sets of (inputs, outputs) pairs plus equal length.
+* `genOk` / `checkOk` take the injectors as a list of `InjSpec` records and the provider-set
+  variables as pairs `(order, ds)`. -/
+
 end WireP.C19
